@@ -115,6 +115,7 @@ type CaseResult struct {
 	Violations   []Violation         `json:"violations,omitempty"`
 	Inconclusive []string            `json:"inconclusive,omitempty"`
 	Fatal        string              `json:"fatal,omitempty"` // harness fault
+	Recycle      bool                `json:"recycle,omitempty"` // a goroutine of this case may still be running: the child process ends after it
 }
 
 // T is handed to a case.
@@ -198,6 +199,14 @@ func (t *T) Violate(signature, msg string, witness interface{}) {
 
 func (t *T) Violatef(signature string, witness interface{}, format string, a ...interface{}) {
 	t.Violate(signature, fmt.Sprintf(format, a...), witness)
+}
+
+// Recycle asks for the child process to be replaced after this case (a goroutine the case could
+// not stop - a request that never returns - must not go on burning CPU and memory).
+func (t *T) Recycle() {
+	t.mu.Lock()
+	t.res.Recycle = true
+	t.mu.Unlock()
 }
 
 func (t *T) Inconclusive(msg string) {
@@ -416,7 +425,7 @@ func ChildMain(id, tier string, seed int64, idxFile string, outPath, workDir str
 		b, _ := json.Marshal(res)
 		f.Write(append(b, '\n'))
 		fmt.Fprintf(journal, "done %d\n", idx)
-		if len(res.Inconclusive) > 0 && strings.Contains(strings.Join(res.Inconclusive, " "), "watchdog") {
+		if res.Recycle || len(res.Inconclusive) > 0 && strings.Contains(strings.Join(res.Inconclusive, " "), "watchdog") {
 			// a goroutine of the abandoned case may still be running: recycle the process
 			fmt.Fprintf(journal, "recycle-after %d\n", idx)
 			return 3
